@@ -11,6 +11,16 @@ let rec nth n l default =
             | [] -> default
             | _ :: t -> nth m t default)
 
+(** val nth_error : 'a1 list -> nat -> 'a1 option **)
+
+let rec nth_error l = function
+| O -> (match l with
+        | [] -> None
+        | x :: _ -> Some x)
+| S n0 -> (match l with
+           | [] -> None
+           | _ :: l0 -> nth_error l0 n0)
+
 (** val map : ('a1 -> 'a2) -> 'a1 list -> 'a2 list **)
 
 let rec map f = function
